@@ -12,6 +12,7 @@ TITLE = "extending needs a matching calendar chain and preserves the signature"
 
 def run(prog, chk):
     replace_table(prog, chk)
+    right_link_table(prog, chk)
     chk.explanation = (
         "(R6) KSI_ExtendResp_verifyWithRequest is evaluated abstractly for every combination of reply status {absent, 0, non-zero} x "
         "request-id equality x requested publication time {absent, equal, different} x aggregation-time equality x shape-time "
@@ -286,3 +287,44 @@ def replace_table(prog, chk):
         chk.ob("C08.replace", inst, ok, "expected %s; source: status %s, replaced %s, appended %s"
                % ("element %d (0x802) replaced" % tags.index(0x802) if has else "the new chain appended, nothing replaced", q.ret, seen["replace"], seen["append"]),
                loc=fn.loc(), fn=fn, nontrivial=not has)
+
+
+def right_link_table(prog, chk):
+    """ksi_CalendarHashChain_verifyRightLinkCompatibility over pairs of link sequences (directions and imprint names): compatible exactly
+    when the right links of both chains, in order, are the same imprints - same number of them; left links never stand in for a right
+    link."""
+    import itertools
+    from ksirules.interp import TOP, Interp, Ptr, list_overrides, succeed_model
+    chk.rule("C08.rightlinks", "right-link compatibility: the sequences of right-link imprints of both chains are equal (decision table over link patterns)", floor=20)
+    fn = prog.fn("ksi_CalendarHashChain_verifyRightLinkCompatibility", "hashchain.c")
+    ap, bp = fn.params[0]["n"], fn.params[1]["n"]
+    INC = prog.const("KSI_INCOMPATIBLE_HASH_CHAIN")
+    # a link is (direction, imprint name)
+    A_ = [[], [("R", "x")], [("L", "p"), ("R", "x")], [("R", "x"), ("R", "y")], [("R", "x"), ("L", "p"), ("R", "y")], [("L", "p")]]
+    B_ = [[], [("R", "x")], [("L", "x")], [("R", "y")], [("L", "q"), ("R", "x")], [("R", "x"), ("R", "y")], [("R", "x"), ("L", "y")], [("R", "x"), ("R", "y"), ("R", "z")],
+          [("L", "x"), ("L", "y")], [("R", "x"), ("L", "q"), ("R", "y"), ("L", "r")]]
+    for la, lb in itertools.product(A_, B_):
+        lists = {"LA": [Ptr("a%d" % k) for k in range(len(la))], "LB": [Ptr("b%d" % k) for k in range(len(lb))]}
+        length, element_at = list_overrides(lists)
+        inputs = {ap: Ptr("A"), bp: Ptr("B"), "A->hashChain": Ptr("LA"), "B->hashChain": Ptr("LB"), "A->ctx": Ptr("ctx"), "B->ctx": Ptr("ctx")}
+        for k, (d, v) in enumerate(la):
+            inputs["a%d->isLeft" % k] = 1 if d == "L" else 0
+            inputs["a%d->imprint" % k] = Ptr("H:" + v)
+        for k, (d, v) in enumerate(lb):
+            inputs["b%d->isLeft" % k] = 1 if d == "L" else 0
+            inputs["b%d->imprint" % k] = Ptr("H:" + v)
+        ov = {"KSI_HashChainLinkList_length": length, "KSI_HashChainLinkList_elementAt": element_at,
+              "KSI_DataHash_equals": lambda I, p, n, a: (1 if (isinstance(a[0], Ptr) and a[0] == a[1]) else 0) if all(isinstance(x, Ptr) or x == 0 for x in a[:2]) else TOP}
+        I = Interp(fn, inputs=inputs, call_model=succeed_model(prog, ov), on_unknown="stop", prog=prog, loop_bound=len(la) + len(lb) + 4)
+        paths = I.run()
+        chk.paths += len(paths)
+        show_ = lambda l: " ".join("%s(%s)" % (d, v) for d, v in l) or "-"
+        inst = "rightLinkCompatibility[old %s | new %s]" % (show_(la), show_(lb))
+        if len(paths) != 1 or paths[0].undetermined:
+            raise AnalysisBroken("verifyRightLinkCompatibility: evaluation not determined for %s: %s" % (inst, [q.undetermined[:1] for q in paths]))
+        q = paths[0]
+        want = [v for d, v in la if d == "R"] == [v for d, v in lb if d == "R"]
+        ok = (q.ret == 0) if want else (q.ret == INC)
+        chk.ob("C08.rightlinks", inst, ok, "right links %s vs %s: expected %s; source returns %s"
+               % ([v for d, v in la if d == "R"], [v for d, v in lb if d == "R"], "compatible (KSI_OK)" if want else "KSI_INCOMPATIBLE_HASH_CHAIN",
+                  hex(q.ret) if isinstance(q.ret, int) else q.ret), loc=fn.loc(), fn=fn, nontrivial=not want)
